@@ -123,7 +123,7 @@ class ExprMixin:
                      "isarray", "ufn", "trunc", "apply", "pairs_kept", "nyielded", "consumed", "nitems", "item",
                      "yields_items_of", "mapped", "induct", "assume_axiom", "chunk_off", "defined_len", "is_permutation",
                      "bo_fields", "bo_order", "bo_bytes", "bo_swapped", "bo_value", "bo_big", "bo_little", "bo_native",
-                     "bo_names", "machine_little", "approx", "psum", "gl_nodes", "gl_weights"}
+                     "bo_names", "machine_little", "approx", "psum", "gl_nodes", "gl_weights", "field_names", "field_type", "field_subshape"}
 
     def load_c_sibling(self, modname, cmod, name):
         from . import cfront
@@ -495,6 +495,12 @@ class ExprMixin:
         if opn in ("In", "NotIn"):
             r = self.contains(b, a, st, fr, node)
             return r if opn == "In" else znot(r)
+        from .prims import StrArr, BoolTuple
+        if isinstance(a, StrArr) or isinstance(b, StrArr):
+            arr_, other = (a, b) if isinstance(a, StrArr) else (b, a)
+            if opn in ("Eq", "NotEq") and isinstance(other, str):
+                return BoolTuple([(x == other) == (opn == "Eq") for x in arr_.items])
+            raise Unsupported("comparison on an array of names", node)
         from .bomodel import OrderV, ORDER_CODES
         if isinstance(a, OrderV) or isinstance(b, OrderV):
             if opn not in ("Eq", "NotEq"):
@@ -752,12 +758,25 @@ class ExprMixin:
         from .bomodel import BODType, OrderV
         if isinstance(v, BODType):
             return self.bodtype_attr(v, attr, st, fr, node)
+        if isinstance(v, DTypeV) and attr == "descr" and isinstance(v.h, HStruct):
+            # numpy's descr of a packed structured dtype: one (name, typestr, subshape) tuple per field, in field order
+            from .values import FieldType
+            items = []
+            for nm in v.h.fields:
+                ft = v.h.ftype.get(nm) or FieldType(z3.Int("type!%s!%d" % (nm, id(v.h) % 100000)), st.get(v.h.fields[nm]).kind)
+                items.append((nm, ft, v.h.fshape.get(nm, 0)))
+            return st.alloc(HList(items))
         if isinstance(v, DTypeV):
             if attr == "names":
                 return v.names
             if attr == "fields":
                 return None if v.names is None else {n: True for n in v.names}
             raise Unsupported("dtype attribute ." + attr, node)
+        from .prims import StrArr
+        if isinstance(v, StrArr):
+            if attr == "size":
+                return len(v.items)
+            raise Unsupported("attribute .%s of an array of names" % attr, node)
         if isinstance(v, Prim):
             return Prim(v.name + "." + attr)
         if isinstance(v, ModuleExprT):
@@ -889,6 +908,12 @@ class ExprMixin:
                                      fresh=hb.fresh))
             if isinstance(h, (HArr, HArr2)):
                 return self.arr_subscript(base, h, idx, st, fr, node)
+        from .prims import StrArr
+        if isinstance(base, StrArr):
+            c = as_const(idx) if is_sym(idx) else idx
+            if isinstance(c, int) and -len(base.items) <= c < len(base.items):
+                return base.items[c]
+            raise Unsupported("symbolic index into an array of names", node)
         if isinstance(base, dict):
             return base[idx]
         if isinstance(base, Opaque):
